@@ -75,6 +75,7 @@ func (s *MemCachedStore) lock() {
 func (s *MemCachedStore) unlock() {
 	if !s.private {
 		s.mut.Unlock()
+		verifLockYield("unlock")
 	}
 }
 
@@ -90,6 +91,7 @@ func (s *MemCachedStore) rlock() {
 func (s *MemCachedStore) runlock() {
 	if !s.private {
 		s.mut.RUnlock()
+		verifLockYield("runlock")
 	}
 }
 
